@@ -48,6 +48,8 @@ def tables():
             if 'bban' in props:
                 for low, high in e.ranges:
                     t['iban_structures'][low] = props['bban']
+    broots, bentries = D.parse_text(open(os.path.join(C.REPO, 'stdnum', 'be', 'banks.dat'), encoding='utf-8').read(), collect_errors=[])
+    t['be_bank_ranges'] = [(lo, hi) for e in bentries if e.props for lo, hi in e.ranges]
     return t
 
 
